@@ -25,6 +25,9 @@ const (
 	// FaultFailSame: SSH_AGENT_FAILURE now and for every later request with the very same bytes - an agent that
 	// refuses this key, however often it is asked (not part of AllFaults: the worlds opt in)
 	FaultFailSame = "fail_same"
+	// FaultFailKind: SSH_AGENT_FAILURE now and for every later request of the same kind - an agent that does not
+	// implement this operation (token-backed agents refuse removals), opt-in like FaultFailSame
+	FaultFailKind = "fail_kind"
 )
 
 // SlowPrefix marks what is not a fault at all: "slow:<seconds>" makes the peer take that long (on the clock
@@ -70,6 +73,7 @@ type Peer struct {
 	perKind  map[string]int
 	fired    map[int]bool
 	refused  [][]byte // requests that are refused whenever they come again (FaultFailSame)
+	noKind   map[string]bool // request kinds that are refused from now on (FaultFailKind)
 }
 
 // KindOf maps an agent opcode to a request kind.
@@ -204,6 +208,13 @@ func (p *Peer) Serve(c io.ReadWriteCloser) int {
 			c.Write(frame([]byte{5}))
 			continue
 		}
+		if p.noKind[kind] {
+			if p.OnFault != nil {
+				p.OnFault(kind, FaultFailKind, idx)
+			}
+			c.Write(frame([]byte{5}))
+			continue
+		}
 		honest := func() []byte {
 			if p.Intercept != nil {
 				if b := p.Intercept(kind, req, func() []byte { return Process(p.Agent, req) }); b != nil {
@@ -239,6 +250,13 @@ func (p *Peer) Serve(c io.ReadWriteCloser) int {
 				continue
 			case FaultFailSame:
 				p.refused = append(p.refused, append([]byte(nil), req...))
+				c.Write(frame([]byte{5}))
+				continue
+			case FaultFailKind:
+				if p.noKind == nil {
+					p.noKind = map[string]bool{}
+				}
+				p.noKind[kind] = true
 				c.Write(frame([]byte{5}))
 				continue
 			case FaultEmpty:
